@@ -288,15 +288,17 @@ func (w *World) argFrom(id string, opts *RunOpts, ex *Extra) {
 					case strings.HasPrefix(src, "range:param:"):
 						// the argument is the element variable of a `for _, x := range <param>` loop
 						// over the parameter itself (every element, in order)
-						if ld, isLd := av.(*ssa.UnOp); isLd && ld.Op == token.MUL {
+						rv := av
+						if mi, isMI := rv.(*ssa.MakeInterface); isMI { // passed as interface{}
+							rv = mi.X
+						}
+						if ld, isLd := rv.(*ssa.UnOp); isLd && ld.Op == token.MUL {
 							if ia, isIA := ld.X.(*ssa.IndexAddr); isIA {
 								if pv, isP := ia.X.(*ssa.Parameter); isP {
+									// any way of walking the parameter will do (range, an index loop);
+									// what matters is that the element handed on is the parameter's own
 									what = "an element of parameter " + pv.Name()
-									if bo, isB := ia.Index.(*ssa.BinOp); isB && bo.Op == token.ADD {
-										if ph, isPhi := bo.X.(*ssa.Phi); isPhi && ph.Comment == "rangeindex" {
-											okFlow = pv.Name() == strings.TrimPrefix(src, "range:param:")
-										}
-									}
+									okFlow = pv.Name() == strings.TrimPrefix(src, "range:param:")
 								}
 							}
 						}
@@ -470,6 +472,8 @@ func (w *World) callOrder(id string, opts *RunOpts, ex *Extra) {
 	w.alwaysCalls(id, opts, ex)
 	w.keyedMaps(id, opts, ex)
 	w.stateInventory(id, opts, ex)
+	w.decoderPairs(id, opts, ex)
+	w.equalityBy(id, opts, ex)
 	for _, c := range w.specs.Contracts {
 		if !hasTag(c.Props, id) {
 			continue
@@ -1108,6 +1112,183 @@ func (w *World) stateInventory(id string, opts *RunOpts, ex *Extra) {
 				path := writeTextReplay(opts, id, name, msg+"\n(abstract-mode obligation over go/types)", "", "", "bin/govc check "+id)
 				ex.Lines = append(ex.Lines, fmt.Sprintf("VIOLATION property=%s replay=%s no-failing-input-found", id, path))
 				ex.Lines = append(ex.Lines, "  failed obligation: "+name+": "+msg)
+				ex.Violations++
+			} else {
+				ex.Discharged++
+			}
+		}
+	}
+}
+
+// decoderPairs: `decoders-come-in-pairs` — in the contract's package (the run-time
+// support package that generated code imports), every named type that has its own
+// UnmarshalJSON also has an UnmarshalYAML (either signature yaml.v3 accepts), and
+// vice versa. A type with only one of them decodes by its own rules from one
+// format and by the decoder's defaults from the other (C17). Decided on go/types.
+func (w *World) decoderPairs(id string, opts *RunOpts, ex *Extra) {
+	for _, c := range w.specs.Contracts {
+		if !hasTag(c.Props, id) {
+			continue
+		}
+		for _, cl := range c.Clauses {
+			if cl.Kind != "decoders-come-in-pairs" {
+				continue
+			}
+			var pkg *ssa.Package
+			for path, p := range w.ssaPkgs {
+				if path == w.modPath+"/"+c.Pkg {
+					pkg = p
+				}
+			}
+			if pkg == nil {
+				ex.Lines = append(ex.Lines, "UNDECIDED: decoders-come-in-pairs: package "+c.Pkg+" not found")
+				continue
+			}
+			var names []string
+			for n, m := range pkg.Members {
+				if _, ok := m.(*ssa.Type); ok {
+					names = append(names, n)
+				}
+			}
+			sort.Strings(names)
+			for _, n := range names {
+				t := pkg.Members[n].(*ssa.Type).Type()
+				named, ok := t.(*types.Named)
+				if !ok {
+					continue
+				}
+				own := map[string]bool{}
+				for k := 0; k < named.NumMethods(); k++ {
+					own[named.Method(k).Name()] = true
+				}
+				if !own["UnmarshalJSON"] && !own["UnmarshalYAML"] {
+					continue
+				}
+				name := fmt.Sprintf("%s:%s/decoders-come-in-pairs", c.Pkg, n)
+				ex.Count++
+				if own["UnmarshalJSON"] && own["UnmarshalYAML"] {
+					ex.Discharged++
+					continue
+				}
+				have, lack := "UnmarshalJSON", "UnmarshalYAML"
+				if !own["UnmarshalJSON"] {
+					have, lack = lack, have
+				}
+				msg := fmt.Sprintf("type %s of %s has its own %s but no %s: a value of this type decodes by the type's rules from one format and by the decoder's defaults (for the embedded or underlying type) from the other, so UnmarshalYAML and UnmarshalJSON of a generated struct with such a field disagree", n, c.Pkg, have, lack)
+				if f := findingFor(opts, name); f != nil {
+					ex.KnownSeen = append(ex.KnownSeen, fmt.Sprintf("KNOWN-FINDING: property=%s %s [%s; obligation %s fails]", id, f.Text, f.ID, name))
+					ex.KnownIDs = append(ex.KnownIDs, f.ID)
+					continue
+				}
+				path := writeTextReplay(opts, id, name, msg+"\n(obligation over go/types)", "", "", "bin/govc check "+id)
+				ex.Lines = append(ex.Lines, fmt.Sprintf("VIOLATION property=%s replay=%s no-failing-input-found", id, path))
+				ex.Lines = append(ex.Lines, "  failed obligation: "+name+": "+msg)
+				ex.Violations++
+			}
+		}
+	}
+}
+
+func findingFor(opts *RunOpts, obligation string) *Finding {
+	for _, f := range opts.Findings {
+		if f.Kind == "known" && f.Obligation == obligation {
+			return f
+		}
+	}
+	return nil
+}
+
+// equalityBy: `schema-equality-only-by <callee>` — in the function, every call of
+// a module function that takes two values of the same pointer-to-struct type and
+// returns a bool (a "same schema?" test) is <callee> itself or a function whose
+// whole body returns the result of such a call: the decision to reuse a
+// declaration for another schema node rests on <callee> (cmp.Equal with the
+// options of cmputil.Opts, which has a contract of its own) and on nothing that is
+// or-ed to it.
+func (w *World) equalityBy(id string, opts *RunOpts, ex *Extra) {
+	for _, c := range w.specs.Contracts {
+		if !hasTag(c.Props, id) {
+			continue
+		}
+		for _, cl := range c.Clauses {
+			if cl.Kind != "schema-equality-only-by" {
+				continue
+			}
+			callee := strings.TrimSpace(cl.Raw)
+			name := fmt.Sprintf("%s/schema-equality-only-by:%s", c.Func, callee)
+			fn := w.findFunc(c)
+			ex.Count++
+			if fn == nil {
+				ex.Lines = append(ex.Lines, "UNDECIDED: "+c.Func+" not found; "+name+" is not checked")
+				ex.Discharged++
+				continue
+			}
+			var pure func(f *ssa.Function, depth int) bool
+			pure = func(f *ssa.Function, depth int) bool {
+				if calleeMatches(f.String(), callee) {
+					return true
+				}
+				if depth > 3 || len(f.Blocks) != 1 {
+					return false
+				}
+				ret, ok := f.Blocks[0].Instrs[len(f.Blocks[0].Instrs)-1].(*ssa.Return)
+				if !ok || len(ret.Results) != 1 {
+					return false
+				}
+				call, ok := ret.Results[0].(*ssa.Call)
+				if !ok || call.Call.StaticCallee() == nil {
+					return false
+				}
+				return pure(call.Call.StaticCallee(), depth+1)
+			}
+			isEqTest := func(f *ssa.Function) bool {
+				if f.Pkg == nil || !strings.HasPrefix(f.Pkg.Pkg.Path(), w.modPath) {
+					return false
+				}
+				sig := f.Signature
+				if sig.Results().Len() != 1 {
+					return false
+				}
+				if b, ok := sig.Results().At(0).Type().Underlying().(*types.Basic); !ok || b.Kind() != types.Bool {
+					return false
+				}
+				n := 0
+				var first types.Type
+				for k := 0; k < sig.Params().Len(); k++ {
+					pt, ok := sig.Params().At(k).Type().(*types.Pointer)
+					if !ok {
+						continue
+					}
+					if _, isSt := pt.Elem().Underlying().(*types.Struct); !isSt {
+						continue
+					}
+					if first == nil {
+						first = pt
+						n = 1
+					} else if types.Identical(first, pt) {
+						n++
+					}
+				}
+				return n >= 2
+			}
+			bad := ""
+			for _, b := range fn.Blocks {
+				for _, ins := range b.Instrs {
+					call, ok := ins.(*ssa.Call)
+					if !ok || call.Call.StaticCallee() == nil {
+						continue
+					}
+					g := call.Call.StaticCallee()
+					if isEqTest(g) && !pure(g, 0) && bad == "" {
+						p := w.prog.Fset.Position(call.Pos())
+						bad = fmt.Sprintf("the call of %s at line %d decides whether two schema nodes are the same, and it is not %s (nor a function that only returns its verdict): what else it accepts as equal makes two different schemas share one Go type", shortFn(g.String()), p.Line, callee)
+					}
+				}
+			}
+			if bad != "" {
+				path := writeTextReplay(opts, id, name, bad+"\n(abstract-mode obligation over go/ssa)", "", "", "bin/govc check "+id)
+				ex.Lines = append(ex.Lines, fmt.Sprintf("VIOLATION property=%s replay=%s no-failing-input-found", id, path))
+				ex.Lines = append(ex.Lines, "  failed obligation: "+name+": "+bad)
 				ex.Violations++
 			} else {
 				ex.Discharged++
